@@ -311,7 +311,7 @@ def input_rows(repo, col, R):
     for nm in ("_external_input", "_data_external_input"):
         fi = repo.method("Module", nm)
         ex = idx.expander(repo, fi)
-        terms = list(ex.returns) + [s_.value for s_ in ex.stores]
+        terms = [idx.shape_norm(t_) for t_ in list(ex.returns) + [s_.value for s_ in ex.stores] if t_ is not None]
         rep = next((r for t in terms for r in [T.find(t, lambda x: x.op == "mcall" and x.name == "repeat")] if r is not None), None)
         if rep is None:
             col.unk(R, fi, f"{nm}: an input given once is repeated for every row in view", "no repeat found", node=fi.node)
@@ -999,13 +999,13 @@ def _sibling(repo, col):
                 t_ = ex.term(n.test)
                 if ren:
                     t_ = idx.subst(t_, {k: T("param", v) for k, v in ren.items()})
-                out["assert"] = canon(t_).key()
-        # the value finally stored / returned: find jnp.repeat(...) ifexp
+                out["assert"] = canon(idx.shape_norm(t_)).key()
+        # the value finally stored / returned: find jnp.repeat(...) ifexp  (tile(x, (n, 1)) is the same expansion of a one-row input)
         rep = None
-        for c in ex.calls:
-            if isinstance(c.func, ast.Attribute) and c.func.attr == "repeat":
-                rep = c
-        out["repeat_axis"] = unparse(rep.keywords[0].value) if rep is not None and rep.keywords else None
+        for t_ in list(ex.returns) + [s_.value for s_ in ex.stores if s_.value is not None]:
+            rep = rep or T.find(idx.shape_norm(t_), lambda x: x.op == "mcall" and x.name == "repeat")
+        ax = rep.kw.get("axis") if rep is not None else None
+        out["repeat_axis"] = str(ax.name) if ax is not None and ax.op == "const" else None
         out["has_repeat"] = rep is not None
         return out
 
